@@ -1,11 +1,55 @@
 (** C13 — String and number literals survive generation exactly.
-    Only statements, closed by [exact], with their assumptions printed. *)
-From DL Require Import Lib.Bytes Model.StringLit Proof.StringLitBasics.
+    Only statements, closed by [exact], with their assumptions printed and pinned. *)
+From DL Require Import Lib.Bytes Model.StringLit Proof.StringLitBasics Proof.StringLitFacts.
 Open Scope N_scope.
 
-Theorem C13_quoted_is_delimited : forall s,
-  exists q, (q = 39 \/ q = 34) /\ write_quoted s = q :: quoted_body s ++ [q].
-Proof. exact write_quoted_delimited. Qed.
-Print Assumptions C13_quoted_is_delimited.
-Check C13_quoted_is_delimited : forall s,
-  exists q, (q = 39 \/ q = 34) /\ write_quoted s = q :: quoted_body s ++ [q].
+(** Every byte string, in whatever quoting form [write_string] picks (single, double,
+    long bracket of any level), is read back by Luau's escape rules as the same bytes. *)
+Theorem C13_write_string_roundtrip_luau : forall s,
+  wf_bytes s = true -> decode_literal true (write_string s) = Some s.
+Proof. exact write_string_roundtrip. Qed.
+Print Assumptions C13_write_string_roundtrip_luau.
+Check C13_write_string_roundtrip_luau : forall s,
+  wf_bytes s = true -> decode_literal true (write_string s) = Some s.
+
+Theorem C13_quoted_roundtrip_luau : forall s,
+  wf_bytes s = true -> decode_quoted true (write_quoted s) = Some s.
+Proof. exact quoted_roundtrip_luau. Qed.
+Print Assumptions C13_quoted_roundtrip_luau.
+Check C13_quoted_roundtrip_luau : forall s,
+  wf_bytes s = true -> decode_quoted true (write_quoted s) = Some s.
+
+(** Lua 5.1's rules read it back too unless the literal needs a \u{...} escape, i.e.
+    unless the value is valid UTF-8 containing a non-ASCII character. *)
+Theorem C13_quoted_roundtrip_51 : forall s, wf_bytes s = true ->
+  (utf8_decode s = None \/ forallb (fun c => c <? 128) s = true) ->
+  decode_quoted false (write_quoted s) = Some s.
+Proof. exact quoted_roundtrip_51. Qed.
+Print Assumptions C13_quoted_roundtrip_51.
+Check C13_quoted_roundtrip_51 : forall s, wf_bytes s = true ->
+  (utf8_decode s = None \/ forallb (fun c => c <? 128) s = true) ->
+  decode_quoted false (write_quoted s) = Some s.
+
+(** Long brackets: the chosen level's closer first occurs at the very end of the literal. *)
+Theorem C13_long_roundtrip : forall s t, wf_bytes s = true ->
+  existsb needs_quoted_string s = false ->
+  write_long_bracket s = Some t -> decode_long t = Some (s, []).
+Proof. exact long_roundtrip. Qed.
+Print Assumptions C13_long_roundtrip.
+Check C13_long_roundtrip : forall s t, wf_bytes s = true ->
+  existsb needs_quoted_string s = false ->
+  write_long_bracket s = Some t -> decode_long t = Some (s, []).
+
+Theorem C13_utf8_roundtrip : forall s cps,
+  utf8_decode s = Some cps -> flat_map utf8_encode cps = s.
+Proof. exact utf8_roundtrip. Qed.
+Print Assumptions C13_utf8_roundtrip.
+Check C13_utf8_roundtrip : forall s cps,
+  utf8_decode s = Some cps -> flat_map utf8_encode cps = s.
+
+(** non-vacuity: hypotheses are met by non-trivial values *)
+Example C13_example_long :
+  let s := repeat 97 68 ++ [93; 93; 98; 93; 61] in
+  wf_bytes s = true /\ existsb needs_quoted_string s = false /\
+  exists t, write_long_bracket s = Some t /\ decode_long t = Some (s, []).
+Proof. vm_compute. repeat split. eexists; split; reflexivity. Qed.
